@@ -21,8 +21,11 @@ CAP = 2 ** 30
 TOL_A = 1.0e-6          # the statement's tolerance for the inverses (Angstrom)
 UNIT_A = 1.0e-9         # one discrepancy unit = TOL_A / 1000
 FACTOR = {'A': 1.0, 'nm': 10.0, 'um': 1.0e4}
-SCALAR_KINDS = ('float', 'npfloat', 'array0', 'q0A', 'q0nm', 'q0um')
-ZERO_D = ('npfloat', 'array0', 'q0A', 'q0nm', 'q0um')
+SCALAR_KINDS = ('float', 'npfloat', 'array0', 'q0A', 'q0nm', 'q0um', 'pyint', 'npint', 'npint32', 'iarray0', 'npfloat32')
+ZERO_D = ('npfloat', 'array0', 'q0A', 'q0nm', 'q0um', 'npint', 'npint32', 'iarray0', 'npfloat32')
+INTEGER_KINDS = ('pyint', 'npint', 'npint32', 'iarray0', 'iarray', 'iarray32', 'qAi', 'qnmi')
+SINGLE_KINDS = ('npfloat32', 'f32array')
+SINGLE_ULPS = 8         # FluxConv!SingleUlps
 FILTER_DIR = os.path.join(core.PYDL_SRC, 'pydl', 'pydlutils', 'data', 'filters')
 
 
@@ -32,7 +35,12 @@ def _u():
 
 
 def unit_of(kind):
-    return 'nm' if kind in ('q0nm', 'qnm') else 'um' if kind in ('q0um', 'qum') else 'A'
+    return 'nm' if kind in ('q0nm', 'qnm', 'qnmi') else 'um' if kind in ('q0um', 'qum') else 'A'
+
+
+def numtype(kind):
+    """which numbers the kind can hold: 'double', 'single', 'integer' (Angstrom) or 'integer-nm'."""
+    return 'integer-nm' if kind == 'qnmi' else 'integer' if kind in INTEGER_KINDS else 'single' if kind in SINGLE_KINDS else 'double'
 
 
 def _aunit(name):
@@ -54,6 +62,31 @@ def make_input(kind, lams):
         return (float(lams[0]) * u.AA).to(_aunit(unit_of(kind)))
     if kind == 'array':
         return np.array(lams, dtype=float)
+    if kind in INTEGER_KINDS:
+        ints = [int(v) for v in lams]
+        if any(float(i) != v for i, v in zip(ints, lams)):
+            raise core.MachineryError('non-integer wavelength for integer kind %s: %r' % (kind, lams))
+        if kind == 'pyint':
+            return ints[0]
+        if kind == 'npint':
+            return np.int64(ints[0])
+        if kind == 'npint32':
+            return np.int32(ints[0])
+        if kind == 'iarray0':
+            return np.array(ints[0])
+        if kind == 'iarray':
+            return np.array(ints, dtype=np.int64)
+        if kind == 'iarray32':
+            return np.array(ints, dtype=np.int32)
+        if kind == 'qAi':
+            return np.array(ints, dtype=np.int64) * u.AA
+        if any(i % 10 for i in ints):
+            raise core.MachineryError('qnmi needs whole nanometres: %r' % (lams,))
+        return np.array([i // 10 for i in ints], dtype=np.int64) * u.nm
+    if kind in SINGLE_KINDS:
+        if any(float(np.float32(v)) != v for v in lams):
+            raise core.MachineryError('wavelength not representable in float32: %r' % (lams,))
+        return np.float32(lams[0]) if kind == 'npfloat32' else np.array(lams, dtype=np.float32)
     if kind in ('qA', 'qnm', 'qum'):
         return (np.array(lams, dtype=float) * u.AA).to(_aunit(unit_of(kind)))
     raise core.MachineryError('unknown kind ' + kind)
@@ -80,6 +113,7 @@ def call_fn(fn, x):
     form (as AnswerForm), vals (native floats), unit."""
     from pydl.goddard import astro
     before, bunit, _, _ = native(x)
+    bdtype = str(getattr(x, 'dtype', type(x).__name__))
     out = {'raised': False, 'exc': '', 'obj': None, 'kept': True,
            'form': {'quantity': False, 'unit': 'A', 'scalar': False}, 'vals': [], 'unit': 'A'}
     try:
@@ -89,7 +123,8 @@ def call_fn(fn, x):
         out['exc'] = type(ex).__name__ + ': ' + str(ex)[:120]
         r = None
     after, aunit, _, _ = native(x)
-    out['kept'] = bool(bits(before) == bits(after) and bunit == aunit)
+    out['kept'] = bool(bits(before) == bits(after) and bunit == aunit and
+                       bdtype == str(getattr(x, 'dtype', type(x).__name__)))
     if r is not None:
         try:
             vals, unit, isq, ndim = native(r)
@@ -127,11 +162,35 @@ def du(x, y, unit=UNIT_A):
 
 
 # ------------------------------------------------------------------ values per guard class
-def class_value(rng, cls, angstrom_kind):
-    """A wavelength (Angstrom) of the given class.  Callers in nm / um keep 1e-6 A away from the guard
-    (their unit conversion cannot resolve less; the spec's class "at" covers that band)."""
+def _f32(v):
+    return float(np.float32(v))
+
+
+def class_value(rng, cls, angstrom_kind, nt='double'):
+    """A wavelength (Angstrom) of the given class that the kind can hold.  Callers in nm / um keep 1e-6 A away
+    from the guard (their unit conversion cannot resolve less; the spec's class "at" covers that band)."""
     if cls == 'at':
         return 2000.0
+    if nt == 'integer':
+        pool = ([100, 912, 1216, 1999, 1999, rng.randint(100, 1999)] if cls == 'below' else
+                [2001, 2001, 3000, 5000, 6563, 10000, 299999, 300000, rng.randint(2001, 300000), rng.randint(2001, 12000)])
+        return float(rng.choice(pool))
+    if nt == 'integer-nm':
+        pool = ([100, 910, 1220, 1990, 1990, 10 * rng.randint(10, 199)] if cls == 'below' else
+                [2010, 2010, 3000, 5000, 6560, 10000, 300000, 10 * rng.randint(201, 30000), 10 * rng.randint(201, 1200)])
+        return float(rng.choice(pool))
+    if nt == 'single':
+        if cls == 'below':
+            pool = [100.0, _f32(911.75), _f32(1215.67), 1999.0, float(np.nextafter(np.float32(2000.0), np.float32(0.0))),
+                    min(_f32(math.exp(rng.uniform(math.log(100.0), math.log(1999.9)))), 1999.0 + 0.5)]
+        else:
+            pool = [float(np.nextafter(np.float32(2000.0), np.float32(1e9))), _f32(2000.7), 3000.0, 5000.0, _f32(6562.8),
+                    10000.0, 300000.0, max(_f32(math.exp(rng.uniform(math.log(2000.1), math.log(300000.0)))), 2000.0 + 0.0625),
+                    _f32(2000.0 + 10 ** rng.uniform(-3, 1))]
+        v = float(rng.choice(pool))
+        if (v < 2000.0) != (cls == 'below') or v == 2000.0:
+            raise core.MachineryError('float32 draw %r left its class %s' % (v, cls))
+        return v
     if cls == 'below':
         pool = [100.0, 911.75, 1215.67, 1999.0, 1999.999999, math.exp(rng.uniform(math.log(100.0), math.log(2000.0) - 1e-9)),
                 2000.0 - 10 ** rng.uniform(-6, 2)]
@@ -144,6 +203,13 @@ def class_value(rng, cls, angstrom_kind):
         if angstrom_kind:
             pool.append(math.nextafter(2000.0, 1e9))
     return float(rng.choice(pool))
+
+
+def close_enough(x, y, precision):
+    """harness judgement 'same physical answer': the stated 1e-6 A, or SINGLE_ULPS float32 ulps for float32 input."""
+    if abs(x - y) < TOL_A:
+        return True
+    return precision == 'single' and abs(x - y) < math.ceil(abs(x)) * 120 * SINGLE_ULPS * UNIT_A
 
 
 def classify(kind, cls_first, exc):
@@ -177,16 +243,17 @@ def run_wave_case(c, exp, lams):
         if r not in exp['allowed'][p]:
             bad.append('element %d (%s, %.17g A): output is %s than/to input, allowed %s' % (
                 p, c['pat'][p], lams[p], r, sorted(exp['allowed'][p])))
-    # ArrayIsMapOfScalar: the element of an array answer is the answer for that wavelength as a Python float
-    if kind not in SCALAR_KINDS and o['unit'] in FACTOR:
+    # ArrayIsMapOfScalar / ElementTypeIndependent / UnitIndependent: every element of the answer is the answer for
+    # that wavelength handed over as a Python float
+    if kind != 'float' and o['unit'] in FACTOR:
         for p in range(exp['len']):
             if c['pat'][p] == 'at' and unit_of(kind) != 'A':
                 continue
             s = call_fn(fn, float(lams[p]))
             if s['raised']:
                 continue
-            if not abs(o['vals'][p] * f - s['vals'][0]) < TOL_A:
-                bad.append('element %d: %.17g A differs from scalar answer %.17g A' % (p, o['vals'][p] * f, s['vals'][0]))
+            if not close_enough(s['vals'][0], o['vals'][p] * f, exp['precision']):
+                bad.append('element %d: %.17g A differs from the answer for the float %.17g A' % (p, o['vals'][p] * f, s['vals'][0]))
     return bad, o
 
 
@@ -230,18 +297,25 @@ def hist_cls(lam, units):
 
 def gen_wave_history(seed, idx):
     rng = random.Random('%d-wave-%d' % (seed, idx))
-    units = idx % 2 == 1
+    template = idx % 3        # 0: double precision, Angstrom callers; 1: all units; 2: integer / single-precision element types
+    units = template == 1
+    zerod = (idx // 3) % 2 == 0
     n = rng.choice([1, 2, 3, 3, 3, 4])
+    if units:
+        kinds = rng.sample(['qnm', 'qum', 'qA', 'float', 'q0nm' if zerod else 'qnm', 'q0um' if zerod else 'qum'], 3)
+    elif template == 0:
+        kinds = rng.sample(['qA', 'float', 'float', 'npfloat' if zerod else 'qA',
+                            'array0' if zerod else 'float', 'q0A' if zerod else 'qA'], 3)
+    else:
+        kinds = rng.sample(['iarray', 'iarray32', 'f32array', 'qAi', 'qnmi', 'pyint', 'float',
+                            'npint' if zerod else 'iarray', 'npint32' if zerod else 'iarray32',
+                            'iarray0' if zerod else 'f32array', 'npfloat32' if zerod else 'f32array'], 4)
+    nt = 'double' if template != 2 else 'integer-nm' if 'qnmi' in kinds else 'integer'
     lams = []
     for _ in range(n):
         p = rng.random()
         cls = 'below' if p < 0.3 else 'at' if p < 0.38 else 'above'
-        lams.append(class_value(rng, cls, not units))
-    if units:
-        kinds = rng.sample(['qnm', 'qum', 'qA', 'float', 'q0nm' if idx % 4 == 1 else 'qnm', 'q0um' if idx % 4 == 1 else 'qum'], 3)
-    else:
-        kinds = rng.sample(['qA', 'float', 'float', 'npfloat' if idx % 4 == 0 else 'qA',
-                            'array0' if idx % 4 == 0 else 'float', 'q0A' if idx % 4 == 0 else 'qA'], 3)
+        lams.append(class_value(rng, cls, not units, nt))
     vals = list(lams)
     calls = []
 
@@ -281,7 +355,8 @@ def gen_wave_history(seed, idx):
         for b in range(nv):
             d[a][b], s[a][b] = du(vals[a], vals[b])
     return {'type': 'wave', 'gen': {'type': 'wave', 'idx': idx, 'seed': seed}, 'units': units, 'lams': ['%.17g' % v for v in vals],
-            'vals': [{'cls': hist_cls(v, units)} for v in vals], 'd': d, 's': s, 'calls': calls}
+            'vals': [{'cls': hist_cls(v, units), 'mag': (min(CAP // 1024, int(math.ceil(abs(v)))) if not math.isnan(v) else 0)}
+                     for v in vals], 'd': d, 's': s, 'calls': calls}
 
 
 # ------------------------------------------------------------------ code -> spec: AB histories
@@ -351,10 +426,28 @@ def gen_filter_history(seed, idx):
     nt = int(rng.integers(1, 4))
     nx = int(rng.integers(80, 360))
     cfg = ('img', 'wset', 'img+air', 'wset+air')[idx % 4]
+    # every fourth history: a wavelength solution whose sampling changes abruptly (two log-linear pieces with
+    # steps a factor 50..200 apart, either order, either direction), probed with indicator-like fluxes
+    piecewise = idx % 4 == 2
+    if piecewise:
+        cfg = 'img' if (idx // 4) % 2 == 0 else 'img+air'
+        nt = int(rng.integers(1, 3))
+        nx = int(rng.integers(240, 401))
     toair = cfg.endswith('+air')
     pix = np.arange(nx, dtype=float)
     wave = np.zeros((nt, nx))
-    for t in range(nt):
+    for t in range(nt if piecewise else 0):
+        ncoarse = int(nx * rng.uniform(0.6, 0.85))
+        big = rng.uniform(7e-4, 1.2e-3)
+        small = big / rng.uniform(50.0, 200.0)
+        steps = [np.full(ncoarse, big), np.full(nx - 1 - ncoarse, small)]
+        if rng.random() < 0.5:
+            steps.reverse()
+        ll = rng.uniform(3.48, 3.62) + np.concatenate([[0.0], np.cumsum(np.concatenate(steps))])
+        if rng.random() < 0.5:
+            ll = ll[::-1].copy()
+        wave[t] = 10.0 ** ll
+    for t in range(0 if piecewise else nt):
         lo, hi = WAVE_RANGES[int(rng.integers(0, len(WAVE_RANGES)))]
         lo *= 1.0 + 0.01 * rng.uniform(-1, 1)
         l0, l1 = math.log10(lo), math.log10(hi)
@@ -400,6 +493,24 @@ def gen_filter_history(seed, idx):
     if garbage == 'rand':
         xm[m] = rng.uniform(-1e6, 1e6, int(m.sum()))
     fl = [x, y, zf, cf, xm]
+    # indicator-like fluxes (piecewise solutions only): h on a window, 0 elsewhere; the windows partition the
+    # spectrum (16 narrow, 2 wide), two complements, two sums of neighbouring windows
+    ind = []
+    lin = [{'z': 3, 'a': a, 'x': 1, 'b': b, 'y': 2}]
+    hval = float(rng.choice([1.0, 3.0, 0.25]))
+    if piecewise:
+        def window(lo_, hi_):
+            w = np.zeros((nt, nx))
+            w[:, lo_:hi_] = hval
+            return w
+        K = 16
+        narrow = [window(j * nx // K, (j + 1) * nx // K) for j in range(K)]
+        ind = narrow + [window(0, nx // 2), window(nx // 2, nx)]
+        for j in rng.choice(K, 2, replace=False):
+            ind.append(hval - narrow[int(j)])
+        for j in rng.choice(K - 1, 2, replace=False):
+            ind.append(narrow[int(j)] + narrow[int(j) + 1])
+            lin.append({'z': 5 + len(ind), 'a': 1, 'x': 5 + int(j) + 1, 'b': 1, 'y': 5 + int(j) + 2})
     fluxes_meta = []
     results = []          # list of (nt, 5) arrays: every "result value" of the history
 
@@ -420,13 +531,17 @@ def gen_filter_history(seed, idx):
                 'mlo': add_result(np.repeat([[v.min()] for v in gm], 5, axis=1)),
                 'mhi': add_result(np.repeat([[v.max()] for v in gm], 5, axis=1))}
         fluxes_meta.append(meta)
-    scale = np.array([max(np.abs(f[t][~m[t]]).max() for f in fl) for t in range(nt)])
+    if ind:
+        r0, rh = add_result(np.zeros((nt, 5))), add_result(np.full((nt, 5), hval))
+        for w in ind:           # every indicator-like flux has min 0 and max h in every trace
+            fluxes_meta.append({'const': False, 'cres': 0, 'lo': r0, 'hi': rh, 'mlo': r0, 'mhi': rh})
+    scale = np.array([max([np.abs(f[t][~m[t]]).max() for f in fl] + ([hval] if ind else [])) for t in range(nt)])
     scale = np.where(scale > 0, scale, 1.0)
     calls = []
     res_of = {}
     for masked in (False, True):
-        for k, f in enumerate(fl):
-            if k == 4 and not masked:
+        for k, f in enumerate(fl + ind):
+            if (k == 4 and not masked) or (k > 4 and masked):
                 continue
             arg = f.copy()
             call = {'flux': k + 1, 'masked': masked, 'raised': False, 'shapeok': True, 'res': 1, 'exc': ''}
@@ -445,9 +560,12 @@ def gen_filter_history(seed, idx):
             calls.append(call)
     combs = []
     for masked in (False, True):
-        if (0, masked) in res_of and (1, masked) in res_of:
-            rx, ry = res_of[(0, masked)], res_of[(1, masked)]
-            combs.append({'a': a, 'x': rx, 'b': b, 'y': ry, 'val': add_result(a * results[rx - 1] + b * results[ry - 1])})
+        for l in lin:
+            kx, ky = (l['x'] - 1, masked), (l['y'] - 1, masked)
+            if kx in res_of and ky in res_of:
+                rx, ry = res_of[kx], res_of[ky]
+                combs.append({'a': l['a'], 'x': rx, 'b': l['b'], 'y': ry,
+                              'val': add_result(l['a'] * results[rx - 1] + l['b'] * results[ry - 1])})
     nr = len(results)
     nq = nt * 5
     d = [[[0] * nq for _ in range(nr)] for _ in range(nr)]
@@ -460,7 +578,7 @@ def gen_filter_history(seed, idx):
                                                                   float(scale[t]) * 1e-12)
     return {'type': 'filter', 'gen': {'type': 'filter', 'idx': idx, 'seed': seed}, 'cfg': cfg, 'nt': nt, 'nx': nx, 'garbage': str(garbage),
             'nq': nq, 'overlap': overlap, 'fluxes': fluxes_meta,
-            'lin': [{'z': 3, 'a': a, 'x': 1, 'b': b, 'y': 2}], 'meq': [{'x': 1, 'y': 5}],
+            'piecewise': bool(piecewise), 'lin': lin, 'meq': [{'x': 1, 'y': 5}],
             'calls': calls, 'combs': combs, 'd': d, 's': s}
 
 
@@ -520,8 +638,8 @@ def describe(h, law, wit):
             o = h['obs'][wit[0] - 1]
             return 'sdssflux2ab form=%s band=%d measured shift %s milli-mag (resid %s nano-mag) %s' % (
                 o['form'], o['band'], o['shift'], o['resid'], h['exc'])
-        return 'filter_thru cfg=%s nt=%d nx=%d garbage=%s instance %s calls=%s' % (
-            h['cfg'], h['nt'], h['nx'], h['garbage'], wit,
+        return 'filter_thru cfg=%s%s nt=%d nx=%d garbage=%s instance %s calls=%s' % (
+            h['cfg'], ' piecewise-sampled' if h.get('piecewise') else '', h['nt'], h['nx'], h['garbage'], wit,
             [(c['flux'], c['masked'], c['exc']) for c in h['calls'] if c['exc']] or '')
     except Exception as ex:      # description only
         return 'instance %s (%s)' % (wit, ex)
@@ -565,10 +683,14 @@ def run(ctx):
                 'replayed with several concrete wavelength draws; non-trivial = distinct (fn, kind, pattern) with an '
                 'element at/above the guard, AB cases with level != 0, and recorded histories that triggered a law '
                 'relating two calls; recorded = seeded histories judged by Trace_FluxConv')
-    ctx.assumptions = ['float64 inputs only (float32 cannot hold 1e-6 A at 5000 A)',
+    ctx.assumptions = ['element types: float64, integer (Python int, int32/int64 scalars and arrays, Quantity from integer arrays; '
+                       'exact inputs, full 1e-6 A tolerance) and float32 (answers compared to the float64 answer within 8 float32 '
+                       'ulps: a single-precision input cannot hold 1e-6 A at 5000 A; the answer may be float32 or float64)',
                        'nm / um callers: wavelengths within 1e-9 A of 2000 A count as "at the guard" (open in the statement)',
                        'filter_thru: every trace keeps >= 2 unmasked pixels; laws demanded only in bands the trace overlaps; '
-                       'wavelength solutions are smooth (log-lambda quadratic in pixel), flux dtype float64',
+                       'wavelength solutions: log-lambda quadratic in pixel (image or trace set), or two log-linear pieces with steps '
+                       'a factor 50-200 apart (image only; a 3-coefficient trace set cannot represent them), both directions; '
+                       'flux dtype float64; indicator-like fluxes (16 narrow + 2 wide windows, complements, sums) on the latter',
                        'WithinMinMax under a mask is judged against min/max of the unmasked pixels of the trace']
     rng = random.Random(ctx.seed)
     cfg = 'MC_FluxConv_quick.cfg' if ctx.quick else 'MC_FluxConv_thorough.cfg'
@@ -592,12 +714,12 @@ def run(ctx):
                 ctx.violation({'what': 'sdssflux2ab %s: %s' % (c, '; '.join(bad)[:200]), 'abcase': c, 'expected': exp})
             continue
         c['pat'] = list(c['pat'])
-        exp = {'raises': exp['raises'], 'form': exp['form'], 'len': exp['len'],
+        exp = {'raises': exp['raises'], 'form': exp['form'], 'len': exp['len'], 'precision': exp['precision'],
                'allowed': [sorted(a) for a in exp['allowed']]}
         if any(p != 'below' for p in c['pat']):
             ctx.nontriv((c['fn'], c['kind'], tuple(c['pat'])))
         for rep in range(reps):
-            lams = [class_value(rng, cls, unit_of(c['kind']) == 'A') for cls in c['pat']]
+            lams = [class_value(rng, cls, unit_of(c['kind']) == 'A', numtype(c['kind'])) for cls in c['pat']]
             bad, o = run_wave_case(c, exp, lams)
             ctx.evaluated(2 + 2 * len(lams), 'replay-wave')
             ctx.validated()
